@@ -193,7 +193,8 @@ func main() {
 	out := lib.OpenOut(fl.Out)
 	defer out.Close()
 	if fl.Replay != "" {
-		var pending [][]string
+		// the probes always run first: the driver sets the model's quirk switches from them
+		pending := [][]string{{"q1", "probe", "narrowing"}, {"q2", "probe", "uintkind"}, {"q3", "probe", "rewrap"}, {"q4", "probe", "ptruint"}}
 		for _, line := range lib.ReadLines(fl.Replay) {
 			f := strings.Split(line, "\t")
 			if len(f) < 3 {
@@ -201,7 +202,7 @@ func main() {
 			}
 			// drop the recorded observation so that every kind has its input arity
 			ar := map[string]int{"probe": 3, "compat": 6, "gotype": 5, "wrap": 6, "build": 7, "rt": 7, "hist": 3}[f[1]]
-			if ar == 0 || len(f) < ar {
+			if ar == 0 || len(f) < ar || f[1] == "probe" {
 				continue
 			}
 			pending = append(pending, f[:ar])
